@@ -240,11 +240,11 @@ func tokAfterglow(e Ev, kind string, bits int, input string) {
 
 // alphabets of significant characters per tokenizer (every class that selects a different state)
 var tokAlpha = map[string][]rune{
-	"generic":    {'a', '1', '.', '-', '"', '\'', '<', '=', '>', '#', ' ', '\n', '_', 0xe9, 0x416, 0x1F600},
-	"expression": {'a', '1', '.', '-', '/', '*', '\'', '"', '<', '>', '=', '!', 'e', '+', ' ', '\n', 0x416, 0x1F600},
-	"csv":        {'a', ',', '"', '\r', '\n', ';', ' ', 0x416, 0x1F600},
-	"mustache":   {'a', '{', '}', '#', '/', '"', ' ', '\n', '^', 0x416, 0x1F600},
-	"generic-custom": {'a', '=', ':', '<', '!', '-', '>', '1', ' '},
+	"generic":            {'a', '1', '.', '-', '"', '\'', '<', '=', '>', '#', ' ', '\n', '_', 0xe9, 0x416, 0x1F600},
+	"expression":         {'a', '1', '.', '-', '/', '*', '\'', '"', '<', '>', '=', '!', 'e', '+', ' ', '\n', 0x416, 0x1F600},
+	"csv":                {'a', ',', '"', '\r', '\n', ';', ' ', 0x416, 0x1F600},
+	"mustache":           {'a', '{', '}', '#', '/', '"', ' ', '\n', '^', 0x416, 0x1F600},
+	"generic-custom":     {'a', '=', ':', '<', '!', '-', '>', '1', ' '},
 	"generic-arrows":     {'a', 0x2192, 0x2190, 0x3000, 0x416, 0x21ff, 0x2200, ' ', '\'', '1'},
 	"csv-wide":           {'a', 0xff1b, 0xab, '"', '\r', '\n', 0x416, ',', 0x65e5},
 	"generic-quotes":     {'a', 0xab, 0x201c, '\'', '"', ' ', 0x416, '1', '\n'},
@@ -255,11 +255,11 @@ var tokAlpha = map[string][]rune{
 
 // the most significant subset (push-back paths) for deeper exhaustive enumeration
 var tokAlphaCore = map[string][]rune{
-	"generic":    {'a', '1', '.', '-', '\'', '<', '=', ' '},
-	"expression": {'1', '.', '-', '/', '*', 'e', '<', '\''},
-	"csv":        {'a', ',', '"', '\r', '\n'},
-	"mustache":   {'a', '{', '}', '#', ' ', '"'},
-	"generic-custom": {'=', ':', '<', '!', '-', '>'},
+	"generic":            {'a', '1', '.', '-', '\'', '<', '=', ' '},
+	"expression":         {'1', '.', '-', '/', '*', 'e', '<', '\''},
+	"csv":                {'a', ',', '"', '\r', '\n'},
+	"mustache":           {'a', '{', '}', '#', ' ', '"'},
+	"generic-custom":     {'=', ':', '<', '!', '-', '>'},
 	"generic-arrows":     {'a', 0x2192, 0x3000, 0x416, ' '},
 	"csv-wide":           {'a', 0xff1b, 0xab, '\r', 0x416},
 	"generic-quotes":     {'a', 0xab, 0x201c, '\'', ' '},
@@ -269,17 +269,17 @@ var tokAlphaCore = map[string][]rune{
 }
 
 var tokSnippets = map[string][]string{
-	"generic":    {"a1 <= b-c # rest\nx", "-.5 . - 'q' \"r\" <> >= 12.5.6", "x-1 -x .a a. 1.", "пример 'стр' -", "'unterminated", "a\r\nb\n\rc\rd"},
-	"expression": {"a + b*2 - f(x, 'it''s') /* c */ <= 3.5e-2", "1e 1e+ 1.e5 .5 . - / /* open", "NOT x IS NULL and \"q\"\"r\" != 2 >> 1", "a/b /**/ c/", "x<>y<=z>=w<<1", "'abc\n'\r\n1", "a i\u017f null or x l\u0131ke 'y' and b li\u212ae c", "fal\u017fe x\uffffy <\u013d \u013c"},
-	"csv":        {"a,b,c\r\n1,\"x,y\",3\n", "\"a\"\"b\",,\r,\n\r\"", "a;b\rc\n\nd\"", "\"unterminated,\r\n", "поле,\"знач\"\"ение\"\n"},
-	"generic-custom": {"a=:=b=:c=d", "<!-- x --> <!- <! !>>> !>> !>", "=:=:=:<!--!>>>", "x<![CDATA[y]]> <![CDAT <![CDATA =========== ============ =========="},
+	"generic":            {"a1 <= b-c # rest\nx", "-.5 . - 'q' \"r\" <> >= 12.5.6", "x-1 -x .a a. 1.", "пример 'стр' -", "'unterminated", "a\r\nb\n\rc\rd"},
+	"expression":         {"a + b*2 - f(x, 'it''s') /* c */ <= 3.5e-2", "1e 1e+ 1.e5 .5 . - / /* open", "NOT x IS NULL and \"q\"\"r\" != 2 >> 1", "a/b /**/ c/", "x<>y<=z>=w<<1", "'abc\n'\r\n1", "a i\u017f null or x l\u0131ke 'y' and b li\u212ae c", "fal\u017fe x\uffffy <\u013d \u013c"},
+	"csv":                {"a,b,c\r\n1,\"x,y\",3\n", "\"a\"\"b\",,\r,\n\r\"", "a;b\rc\n\nd\"", "\"unterminated,\r\n", "поле,\"знач\"\"ение\"\n"},
+	"generic-custom":     {"a=:=b=:c=d", "<!-- x --> <!- <! !>>> !>> !>", "=:=:=:<!--!>>>", "x<![CDATA[y]]> <![CDAT <![CDATA =========== ============ =========="},
 	"generic-arrows":     {"страна a → b\u3000x→→y ←", "日本\u3000語 → 'q→' 12"},
 	"csv-wide":           {"日本；語；«q；»»r«\r\nстрана；\"x\"\"y\"；；\n", "a,b；c\r«open；"},
 	"generic-quotes":     {"a «b c« “d“ 'e' \"f\" «open", "x«« ““y «'« “\"“"},
 	"generic-unknownsym": {"a ? b ?! c !? <= ?", "??!?\uffff?# c\n?"},
 	"expression-custom":  {"a->b => c-- -= -1 - 2 --3 ->> =>= <=> a-b", "x-->y -=- 1e-5 -.5 ->"},
 	"generic-2quotes":    {"a `b``c` 'd' \"e\" `open", "`` ```` `'` '`' x"},
-	"mustache":   {"Hello, {{Name}}!", "{{#if A}}x{{/if}}{{^B}}y{{/B}}", "{{{raw}}} {{! c }} {{ a b }} {", "{{ 'q' \"r\" }}} }} {{", "a{b{{c}d}}e}}}", "{{#a}}\n{{/a}}\r\n"},
+	"mustache":           {"Hello, {{Name}}!", "{{#if A}}x{{/if}}{{^B}}y{{/B}}", "{{{raw}}} {{! c }} {{ a b }} {", "{{ 'q' \"r\" }}} }} {{", "a{b{{c}d}}e}}}", "{{#a}}\n{{/a}}\r\n"},
 }
 
 // rareRunes: code points that only matter to a specific comparison, table index or case mapping: the ends of every range the
